@@ -8,7 +8,7 @@ grows by exactly one normalization record (original, replacement, line, column) 
 nothing otherwise.  Holds for every state and input on which the branch is taken. -/
 theorem pattern_step (env : Env) (lenient : Bool) (st : LState) (c : Char) (r : Str) (m : Match)
     (hspan : atSpanStart st = false) (hc : c ≠ ' ')
-    (hm : matchPattern env (st.pos == 0) st.prev (c :: r) = .ok (some m))
+    (hm : matchPattern env st.blank st.prev (c :: r) = .ok (some m))
     (hopen : m.type ≠ .listEnd) (hnl : m.type ≠ .listStart) :
     ∃ st', step env lenient st (c :: r) = .ok (st', m.rest)
       ∧ st'.toks = { type := m.type, value := m.value, line := st.line, col := st.col, normFrom := m.normFrom, raw := m.raw } :: st.toks
@@ -23,7 +23,7 @@ theorem pattern_step (env : Env) (lenient : Bool) (st : LState) (c : Char) (r : 
       repairs := (match m.normFrom with
           | some o => Repair.normalization o m.value st.line st.col :: st.repairs
           | none => st.repairs),
-      stack := st.stack }, ?_, rfl, rfl⟩
+      stack := st.stack, blank := st.blank && m.type == .newline }, ?_, rfl, rfl⟩
   unfold step
   simp only [hspan, hc', hm, Bool.false_eq_true, if_false, bind, Except.bind]
   rfl
